@@ -51,10 +51,33 @@ func pad4(b []byte) []byte {
 }
 
 // producerOracle runs the steps on the real code and checks the frame conditions.
+// scribble overwrites everything the accessors of a message hand out.
+func scribble(m *ast.DataMessage) {
+	sb := m.SystemBytes()
+	for i := range sb {
+		sb[i] ^= 0xA5
+	}
+	vs := m.Variables()
+	for i := range vs {
+		vs[i] = "scribbled"
+	}
+	hb := m.ToBytes()
+	for i := range hb {
+		hb[i] = 0xEE
+	}
+}
+
 func producerOracle(m *MsgDesc, steps [][2]string) string {
 	cur, p := buildMsg(m)
 	if p {
 		return ""
+	}
+	// one fill-in table for all fill steps of the program (the caller may reuse it)
+	shared := map[string]interface{}{}
+	for _, v := range cur.Variables() {
+		if strings.HasPrefix(v, "...") {
+			shared[v] = 1
+		}
 	}
 	for _, st := range steps {
 		before := observe(cur)
@@ -105,7 +128,12 @@ func producerOracle(m *MsgDesc, steps [][2]string) string {
 				return fmt.Sprintf("SetSessionIDAndSystemBytes(%d, %x) stored %d %x", sid, sys, after.sid, after.sys)
 			}
 		case "fill":
-			pan, _ = safely(func() { next = cur.FillVariables(map[string]interface{}{st[1]: "x_renamed"}) })
+			shared[st[1]] = "x_renamed"
+			tableBefore := envSnapshot(shared)
+			pan, _ = safely(func() { next = cur.FillVariables(shared) })
+			if envSnapshot(shared) != tableBefore {
+				return "FillVariables wrote to the fill-in table it was given: " + firstDiff(envSnapshot(shared), tableBefore)
+			}
 			if pan {
 				continue // an ASCII variable refuses a string outside its bounds; not a producer concern
 			}
@@ -117,6 +145,16 @@ func producerOracle(m *MsgDesc, steps [][2]string) string {
 		// the message the producer was called on is untouched
 		if d := before.diff(observe(cur), ""); d != "" {
 			return "producer " + st[0] + " changed the message it was called on: " + d
+		}
+		// … and what the accessors of either message hand out is the caller's to overwrite
+		afterNext := observe(next)
+		scribble(next)
+		scribble(cur)
+		if d := before.diff(observe(cur), ""); d != "" {
+			return "overwriting accessor results (after " + st[0] + ") changed the message the producer was called on: " + d
+		}
+		if d := afterNext.diff(observe(next), ""); d != "" {
+			return "overwriting accessor results (after " + st[0] + ") changed the produced message: " + d
 		}
 		// the result passes the validity rules of a fresh construction
 		if p2, _ := safely(func() {
@@ -137,6 +175,9 @@ func suiteC18(c *Ctx) []Suite {
 				o := GenOpt{MaxDepth: 2, MaxSlots: 4}
 				if i%3 == 0 {
 					o.PVar = 0.2
+				}
+				if i%6 == 0 {
+					o.PVar, o.PEllipsis = 0.3, 0.3
 				}
 				item := genItem(c.R, o)
 				if i%10 == 0 {
@@ -429,6 +470,32 @@ func suiteC12(c *Ctx) []Suite {
 			}
 			return out
 		}},
+		{Name: "ctor/message-setters", Gen: func(c *Ctx) []Case {
+			// the setters are constructors too: a wait bit on an even function, a session id
+			// outside 16 bits are refused exactly as NewDataMessage / NewHSMSDataMessage refuse them
+			var out []Case
+			for i := 0; i < c.N(1500); i++ {
+				item := genItem(c.R, GenOpt{MaxDepth: 2, MaxSlots: 3, PVar: 0.1})
+				m := genMsgDesc(c.R, item, 0)
+				m.W = pick(c.R, 2, 2, 2, 0, 1)
+				if m.W == 1 {
+					m.F |= 1
+				}
+				steps := []string{m.newStep()}
+				for k := 0; k < 1+c.R.Intn(2); k++ {
+					if c.R.Intn(2) == 0 {
+						steps = append(steps, fmt.Sprintf("wait %d", c.R.Intn(2)))
+					} else {
+						sys := make([]byte, pick(c.R, 4, 4, 0, 3, 5))
+						c.R.Read(sys)
+						steps = append(steps, fmt.Sprintf("sess %d %s", pick(c.R, 0, 65535, 65536, -1, -2, 1<<31, c.R.Intn(65536)), hx(sys)))
+					}
+				}
+				out = append(out, Case{Op: "mprog " + strings.Join(steps, " | "), Decisive: true, Nontrivial: true,
+					Tags: []string{fmt.Sprintf("setter w=%d even=%v", m.W, m.F%2 == 0)}}.fields("name s f w dir sid sys bytes"))
+			}
+			return out
+		}},
 	}
 }
 
@@ -615,8 +682,31 @@ func suiteC16(c *Ctx) []Suite {
 					cs.Oracle = "message variables change under an empty fill"
 				}
 				out = append(out, cs)
+				// the same message addressed and with the wait bit decided: bytes iff no variables
+				if !p {
+					op := fmt.Sprintf("mprog %s | sess %d %s | wait %d", m.newStep(), m.Sid, hx(m.Sys), c.R.Intn(2))
+					c2 := Case{Op: op, Decisive: true, Nontrivial: true, Tags: []string{"msg-addressed"}}.fields("vars bytes")
+					var full *ast.DataMessage
+					if pan, _ := safely(func() { full = msg.SetSessionIDAndSystemBytes(m.Sid, m.Sys).SetWaitBit(false) }); !pan {
+						if (len(full.ToBytes()) != 0) != (len(full.Variables()) == 0) {
+							c2.Oracle = fmt.Sprintf("addressed message with variables %q encodes to %d bytes", full.Variables(), len(full.ToBytes()))
+						}
+					}
+					out = append(out, c2)
+				}
+			}
+			// a message whose whole text is one unfilled variable of each kind
+			for _, it := range []*Node{{Kind: "AV", Name: "MDLN", Min: 0, Max: 20}, {Kind: "AV", Name: "x", Min: 0, Max: -1},
+				{Kind: "U", W: 1, Slots: []Slot{{IsVar: true, Name: "v"}}}, {Kind: "BO", Slots: []Slot{{IsVar: true, Name: "b"}}},
+				{Kind: "L", Slots: []Slot{{IsVar: true, Name: "item"}}}, {Kind: "L", Slots: []Slot{{Child: &Node{Kind: "AV", Name: "a", Min: 1, Max: 1}}}}} {
+				for w := 0; w < 3; w++ {
+					m := &MsgDesc{Item: it, Name: "n", S: 1, F: 13, W: w, Dir: "H->E", Sid: 7, Sys: []byte{0, 0, 0, 1}}
+					op := fmt.Sprintf("mprog %s | sess %d %s | wait 1", m.newStep(), m.Sid, hx(m.Sys))
+					out = append(out, Case{Op: op, Decisive: true, Nontrivial: true, Tags: []string{"msg-bare-variable"}}.fields("vars bytes"))
+				}
 			}
 			return out
 		}},
+		{Name: "vars/near-limit-encodable", Gen: nearLimitRoundTrip},
 	}
 }
